@@ -207,13 +207,15 @@ impl ArrayImpl {
     pub fn like(&self, pattern: &str) -> Result {
         /// Converts a SQL LIKE pattern to a regex pattern.
         fn like_to_regex(pattern: &str) -> String {
-            let mut regex = String::with_capacity(pattern.len());
-            regex.push('^');
+            let mut regex = String::with_capacity(pattern.len() + 6);
+            // `%` and `_` match line breaks too
+            regex.push_str("(?s)^");
             for c in pattern.chars() {
                 match c {
                     '%' => regex.push_str(".*"),
                     '_' => regex.push('.'),
-                    c => regex.push(c),
+                    // every other character stands for itself, `.`, `(`, `\\` ... included
+                    c => regex.push_str(&::regex::escape(c.encode_utf8(&mut [0; 4]))),
                 }
             }
             regex.push('$');
